@@ -235,7 +235,15 @@ func runGenerated(t *testing.T, rt *rapid.T, spec *checkSpec) (res caseResult) {
 		func() {
 			// rapid signals invalid/exhausted data by panicking; carry that
 			// out of the bubble to rapid's own goroutine
-			defer func() { pv = recover() }()
+			defer func() {
+				pv = recover()
+				if pv != nil && !strings.HasPrefix(fmt.Sprintf("%T", pv), "rapid.") && !strings.HasPrefix(fmt.Sprintf("%T", pv), "*rapid.") {
+					// a bug of the harness itself: keep the stack, rapid only sees the re-panic
+					buf := make([]byte, 1<<16)
+					buf = buf[:runtime.Stack(buf, false)]
+					fmt.Fprintf(os.Stderr, "HARNESS-PANIC %T %v\n%s\n", pv, pv, buf)
+				}
+			}()
 			c.generate(rt, p, spec)
 		}()
 		c.teardown()
@@ -259,14 +267,38 @@ func (c *cluster) generate(rt *rapid.T, p *profile, spec *checkSpec) {
 			extras = append(extras, uint64(n+1+i))
 		}
 	}
-	c.step(vAct{A: "init", K: n, L: extras, T: c.seed, B: rapid.IntRange(0, 4).Draw(rt, "noShutdownOnRemove") == 0})
+	// some voters of the initial configuration start empty (they learn the
+	// configuration from the leader, or are bootstrapped later by a task)
+	var unseeded []uint64
+	if p.lateBoot > 0 && n >= 2 && !c.blackbox && rapid.IntRange(0, 99).Draw(rt, "lateBoot") < p.lateBoot {
+		k := rapid.IntRange(1, n-1).Draw(rt, "unseeded")
+		for i := 0; i < k; i++ {
+			unseeded = append(unseeded, uint64(n-i))
+		}
+	}
+	c.step(vAct{A: "init", K: n, L: extras, U: unseeded, T: c.seed, B: rapid.IntRange(0, 4).Draw(rt, "noShutdownOnRemove") == 0})
+	if len(unseeded) > 0 {
+		// the operator bootstraps them while the others are already campaigning
+		c.step(vAct{A: "gate"})
+		for r := 0; r < 6 && !c.failed(); r++ {
+			switch rapid.IntRange(0, 3).Draw(rt, "lb") {
+			case 0:
+				c.step(vAct{A: "adv", T: int64(rapid.SampledFrom([]int{100, 600, 1100}).Draw(rt, "lbadv"))})
+			case 1:
+				c.step(vAct{A: "settle", K: rapid.IntRange(1, 4).Draw(rt, "lbk")})
+			default:
+				c.step(vAct{A: "bootstrap", N: unseeded[rapid.IntRange(0, len(unseeded)-1).Draw(rt, "lbn")]})
+			}
+		}
+		c.step(vAct{A: "free"})
+	}
 	// warm-up in free mode: elect a leader, commit some updates
 	for i := 0; i < 12 && len(c.leaders()) == 0 && !c.failed(); i++ {
 		c.step(vAct{A: "adv", T: 700})
 	}
 	if !c.failed() && p.warmUpd > 0 && len(c.leaders()) > 0 {
 		k := rapid.IntRange(0, p.warmUpd).Draw(rt, "warmUpd")
-		for k > 0 && !c.failed() {
+		for k > 0 && !c.failed() && len(c.leaders()) > 0 {
 			b := k
 			if b > 10 {
 				b = 10
